@@ -4,6 +4,7 @@ import Thanos.Lemmas.StoreSpec
 import Thanos.Lemmas.Partition
 import Thanos.Props.C07
 import Thanos.Props.C15
+import Thanos.Generated.Facts
 /-
   C10 — Store gateway answers equal a direct TSDB read of the same blocks.
 
@@ -191,6 +192,38 @@ theorem C10_selected_allowed (blocks : List Block) (r : Req) (b : Block) (h : b 
     simp at hxb
     subst hxb
     omega
+
+/-- the expanded postings of (block, matchers) are range independent, and every request over any range is
+    answered from them by looking at chunk ranges only: this is what makes it sound to cache them under a key
+    without time range (a list that lacks the series without chunks in the FIRST request's range would lose
+    them for later requests) -/
+theorem C10_cached_postings_range_independent (serve : Labels → Labels) (ms : List Matcher) (series : List Series)
+    (mint maxt : Int) :
+    selectSeries serve ms series mint maxt =
+      (expandedPostings ms series).filterMap (fun s =>
+        let cs := chunksForTime s.chunks mint maxt
+        if cs.isEmpty then none else some (serve s.lset, cs)) := by
+  unfold selectSeries expandedPostings
+  induction series with
+  | nil => rfl
+  | cons s rest ih =>
+    simp only [List.filterMap_cons, List.filter_cons]
+    cases hm : matchesAll ms s.lset with
+    | true => simp only [if_true, List.filterMap_cons]; rw [ih]
+    | false => simp only [Bool.false_eq_true, if_false]; rw [ih]
+
+/-- regenerated facts: what is stored as expanded postings — the complete list when nothing is lazy, and with lazy
+    expansion the list `b.expandedPostings`, to which a series is appended after the lazy matchers accepted it and
+    BEFORE the test for chunks in range (the early skip is only taken without lazy expansion) -/
+theorem C10_fact_expanded_postings_cache :
+    Thanos.Facts.storesExpandedPostingsStored =
+      ["ExpandedPostings: ms, index.EmptyPostings()", "ExpandedPostings: ms, index.NewListPostings(ps.postings)",
+       "nextBatch: b.blockMatchers, index.NewListPostings(b.expandedPostings)"]
+    ∧ Thanos.Facts.storesNextBatchLoop.take 9 =
+      ["if b.ctx.Err", "hasMatchedChunks := b.indexr.LoadSeriesForTime", "if err != nil { return }",
+       "if !lazyExpandedPosting && !hasMatchedChunks { continue }", "if b.indexr.LookupLabelsSymbols",
+       "b.lset = b.b.Labels", "loop", "if lazyExpandedPosting { b.expandedPostings = append }",
+       "if !hasMatchedChunks { continue }"] := by decide
 
 /-- configurations of the store gateway the answer must not depend on -/
 structure Config where
